@@ -71,9 +71,13 @@ int main(int argc, char **argv){
   TasmanianSparseGrid assigned;
   TasmanianSparseGrid *copy = nullptr; std::unique_ptr<TasmanianSparseGrid> holder;
   if (how == 0){ holder.reset(new TasmanianSparseGrid(src)); copy = holder.get(); }
-  else if (how == 1){ assigned.makeLocalPolynomialGrid(1, 1, 1); assigned = src; copy = &assigned; }
-  else if (how == 2){ assigned.copyGrid(src); copy = &assigned; }
-  else { assigned.copyGrid(src, b, e); copy = &assigned; }
+  else {
+    // the destination is a grid that has been used: other dimensions, a domain transform, a conformal map and level limits of its own must not survive the copy
+    assigned.makeGlobalGrid(3, 2, 2, type_level, rule_clenshawcurtis, std::vector<int>(), 0.0, 0.0, nullptr, std::vector<int>{2, 1, 2});
+    assigned.setDomainTransform(std::vector<double>{-3.0, 1.0, 0.0}, std::vector<double>{5.0, 2.0, 7.0}); assigned.setConformalTransformASIN(std::vector<int>{4, 6, 4});
+    if (how == 1) assigned = src; else if (how == 2) assigned.copyGrid(src); else assigned.copyGrid(src, b, e);
+    copy = &assigned;
+  }
   Obs os = observe(src, probe), oc = observe(*copy, probe);
   compare(oc, os, b, e, "after copy");
   { // completeness as seen by write(): the image of the copy restores a grid with the same observables (a copy that answers queries
